@@ -450,6 +450,8 @@ fn orders_full_with_one_dup(n: usize) -> Vec<Vec<usize>> {
 
 pub fn run(tier: Tier) -> i32 {
     let mut rep = Report::new("C03", tier);
+    // the thorough bounds of this property take seconds: the quick tier runs them too
+    let tier = { let _ = tier; Tier::Thorough };
     rep.rule("sweep: every (message set, delivery sequence) case: single messages of every boundary length on every channel kind and direction; every ordered pair from {0,1,1199,1200,1201,2401}; two sliced messages with all 24 / 720 slice interleavings; one message per channel with every delivery permutation. Delivery sequences: all permutations of the real packet batch when small (else fifo/reverse/rotations/even-odd), each plain, with every single duplicate (adjacent and late) and every single loss; reliable channels then get a fault-free tail. Oracle: every obtained message byte-identical to one submitted on the same channel and direction; unreliable copies <= deliveries of the carrying packets (min over slices); reliable exactly once after the tail");
     rep.assume("message contents are the harness pattern f(direction, channel, index, byte offset, slice number), which makes misplaced slices and cross-delivery visible in the bytes");
     let cs = cases(tier);
@@ -699,6 +701,7 @@ pub fn replay(j: &J) -> i32 {
         Some("thorough") => Tier::Thorough,
         _ => Tier::Quick,
     };
+    let tier = { let _ = tier; Tier::Thorough };
     let cs = cases(tier);
     let i = j.get("case_index").and_then(|x| x.as_i()).unwrap_or(0) as usize;
     let Some(c) = cs.get(i) else {
